@@ -18,9 +18,9 @@ import (
 )
 
 type c19Mon struct {
-	m      *Mon
-	every  int
-	spare  *App // fresh chain used as import target
+	m     *Mon
+	every int
+	spare *App // fresh chain used as import target
 }
 
 func attachC19(m *Mon, every int) {
